@@ -237,7 +237,18 @@ def check_world(acc, W, msgs, groups, w):
         acc.count("frames_scanned")
         for nd, uid in needles:
             if nd in frame:
-                ok = bad("plaintext-on-wire", "a frame leaving %s contains plaintext of message %s" % (phone, uid), {"uid": uid, "frame_head": frame[:60].hex()})
+                m_ = [x for x in sent if x.uid == uid][0]
+                keyless = W.server.keyless_answers.get((phone, m_.target))
+                extra = {"uid": uid, "frame_head": frame[:60].hex(), "to": m_.target, "keyless_answer": keyless,
+                         "server_log_tail": [list(map(str, l)) for l in W.log if l[0] in ("keys-none", "upload", "skipped")][-12:]}
+                if keyless and not sfx:
+                    # the mechanism of the known finding, identified by what the server double saw (the directory had no keys for
+                    # the recipient when the sender asked), not by the scenario
+                    acc.violation("recipient-without-keys:plaintext-on-wire", "a frame leaving %s contains plaintext of message %s: the directory had no keys for %s (%s) when %s asked"
+                                  % (phone, uid, m_.target, keyless, phone), dict(w, **extra))
+                    ok = False
+                else:
+                    ok = bad("plaintext-on-wire", "a frame leaving %s contains plaintext of message %s" % (phone, uid), extra)
                 break
     return ok
 
